@@ -10,6 +10,9 @@ import CV.Proofs.BitsExpGolomb
   one operation on the Impl model / on the list Spec; `run_refines`: any operation sequence
   produces the same outputs on both (induction over the operation list).
 -/
+set_option linter.unusedSimpArgs false
+set_option linter.unusedVariables false
+set_option linter.unnecessarySimpa false
 namespace CV.Bits
 
 /-! ## bit sources -/
